@@ -102,3 +102,4 @@ UNITS.append(apply_actions_unit("C05"))
 from contracts.share import shared  # noqa: E402
 UNITS += shared("C05", "contracts.c04", 'ArgumentParser._load_env_vars')
 UNITS += shared("C05", "contracts.c11", 'Namespace.__init__', 'Namespace._parse_key')
+UNITS += shared("C05", "contracts.c04", "ArgumentParser.parse_env")
